@@ -867,13 +867,20 @@ func (c *Conn) ReadBatchWith(cfg ReadBatchConfig) *Batch {
 			msgs = &messageSetReader{empty: true}
 		} else {
 			msgs, err = newMessageSetReader(&c.rbuf, remain)
+			if errors.Is(err, errShortRead) && msgs.skippedEmptyBatch {
+				// The response started with empty record batches (left behind
+				// by compaction) followed by nothing, or by a batch truncated
+				// at MaxBytes: this is not a broken response, the batch simply
+				// has no messages and ends after the empty batches.
+				err = msgs.discard()
+			}
 		}
 	}
 	if errors.Is(err, errShortRead) {
 		err = checkTimeoutErr(adjustedDeadline)
 	}
 
-	return &Batch{
+	batch := &Batch{
 		conn:          c,
 		msgs:          msgs,
 		deadline:      adjustedDeadline,
@@ -889,6 +896,8 @@ func (c *Conn) ReadBatchWith(cfg ReadBatchConfig) *Batch {
 		// batch.
 		err: dontExpectEOF(err),
 	}
+	batch.skipEmptyBatches()
+	return batch
 }
 
 // ReadOffset returns the offset of the first message with a timestamp equal or
